@@ -211,8 +211,8 @@ def Expr.isRep : Expr → Bool
 /-- a backslash is a grapheme of its own (what `GraphemeCluster::from` guarantees) -/
 def BsOK (s : Str) : Prop := s = [92] ∨ 92 ∉ s
 
-/-- every grapheme of the cluster is `Grapheme::from(s)` for a non-empty `s` in which a backslash only occurs alone -/
-def PlainBs (c : Cluster) : Prop := ∀ g ∈ c, ∃ s, s ≠ [] ∧ BsOK s ∧ g = Grapheme.ofStr s
+/-- every grapheme of the cluster is `Grapheme::from(s)` for a non-empty `s` of scalar values in which a backslash only occurs alone -/
+def PlainBs (c : Cluster) : Prop := ∀ g ∈ c, ∃ s, s ≠ [] ∧ BsOK s ∧ (∀ x ∈ s, Scalar x) ∧ g = Grapheme.ofStr s
 
 mutual
 /-- shapes the elimination produces: non-empty flat alternations, non-empty ascending scalar classes, plain
